@@ -175,7 +175,7 @@ def ctr_class(rnd, qos, big_mem=False):
     return {"cpureq": cpu, "cpulim": lim, "memlim": mem, "memreq": rnd.choice([16, 64, 128, 256])}
 
 
-def lifecycle_history(world, rnd, nops, disorder=0.0, reconf_cfgs=None, sync=True):
+def lifecycle_history(world, rnd, nops, disorder=0.0, reconf_cfgs=None, sync=True, fuzz=0.0):
     """A history over one world.  With disorder=0 the environment is a runtime consistent with its own bookkeeping
     (create before start, stop before remove, containers stopped before their pod); disorder>0 injects events for
     unknown ids, duplicates and out-of-order lifecycle events (C14)."""
@@ -190,6 +190,8 @@ def lifecycle_history(world, rnd, nops, disorder=0.0, reconf_cfgs=None, sync=Tru
         npod[0] += 1
         p = "p%d" % npod[0]
         pc = pod_class(rnd, world["policy"])
+        if fuzz and rnd.random() < fuzz:
+            pc["ann"].update(fuzz_annotations(rnd, ["c%d" % (nctr[0] + i) for i in range(1, 4)]))
         pods[p] = {"qos": pc["qos"], "ctrs": []}
         ops.append({"op": "RunPod", "pod": p, "pods": pc})
         return p
@@ -301,6 +303,33 @@ def lifecycle_history(world, rnd, nops, disorder=0.0, reconf_cfgs=None, sync=Tru
     ops.append({"op": "RemovePod", "pod": "probe", "tag": "drain"})
     return {"world": world, "ops": ops, "consistent": disorder == 0.0}
 
+
+
+# ----------------------------------------------------------------------------------------- C14: malformed annotation values
+
+FUZZ_KEYS = ["prefer-shared-cpus", "prefer-isolated-cpus", "prefer-reserved-cpus", "prefer-cpu-priority", "cpu.preserve", "memory.preserve",
+             "memory-type", "cold-start", "hide-hyperthreads", "topologyhints", "allow.topologyhints", "deny.topologyhints", "affinity",
+             "anti-affinity", "rdtclass", "blockioclass", "toptierlimit", "balloon.balloons"]
+FUZZ_VALUES = ["", " ", "true", "TRUE", "maybe", "0", "-1", "123456789012345678901234567890", "null", "~", "{", "}", "[", "[1,2", "{a: 1",
+               "- a\n- b", "a: {b: [c, d]}", "dram,", ",pmem", "dram,pmem,hbm,mixed,bogus", "duration: 5s", "5", "5s", "-5s", "99999h",
+               "\"", "\\", "\t\n", "x" * 10000, "%s%s%s%n", "../../etc", "c1: [foo]", "[{scope: {key: name, operator: In, values: [c1]}, match: {key: name, operator: Matches, values: ['*']}, weight: 9999999999}]",
+               "[{scope: {key: labels/x, operator: Bogus}}]", "[{match: {}}]", "name: [", "high", "low", "none", "normal", "HIGH",
+               "{\"duration\": \"10s\"}", "{\"duration\": 10}", "{\"duration\": \"-1\"}", "{\"bogus\": true}"]
+
+
+def fuzz_annotations(rnd, containers=("c1", "c2", "c3", "c4")):
+    ann = {}
+    for _ in range(rnd.randint(1, 4)):
+        key = rnd.choice(FUZZ_KEYS) + "." + RP
+        form = rnd.random()
+        if form < 0.4:
+            key += "/container." + rnd.choice(containers)
+        elif form < 0.6:
+            key += "/pod"
+        elif form < 0.65:
+            key += "/container."
+        ann[key] = rnd.choice(FUZZ_VALUES)
+    return ann
 
 
 # ----------------------------------------------------------------------------------------- C11: restart + Synchronize
